@@ -10,8 +10,11 @@ pub struct C19;
 
 const STEPS: [u64; 4] = [1, 2, 3, 7];
 
-fn run_steps(src: &str, n: u64, single: bool) -> Result<(Snapshot, Snapshot), String> {
+fn run_steps(src: &str, n: u64, single: bool) -> Result<(Snapshot, Snapshot), String> { run_steps_p(src, n, single, false) }
+/// the same with the interpreter's profiling switch on (step() has a separate loop for it)
+fn run_steps_p(src: &str, n: u64, single: bool, profile: bool) -> Result<(Snapshot, Snapshot), String> {
   let mut s = Sess::new();
+  s.intrp.profile = profile;
   match s.eval(src) { Ev::Ok(_) => {}, other => return Err(format!("interpret: {}", other.show())) }
   let s0 = s.snapshot();
   let r = if single { guarded(|| { for _ in 0..n { let _ = s.intrp.step(0, 1); } }) } else { guarded(|| { let _ = s.intrp.step(0, n); }) };
@@ -78,6 +81,8 @@ impl Prop for C19 {
       let a2 = match run_steps(src, *n, false) { Ok(x) => x, Err(e) => return Outcome::violated("nondeterministic", format!("second run failed: {}", e)) };
       let b = match run_steps(src, *n, true) { Ok(x) => x, Err(e) => return Outcome::violated("step-panic", format!("program\n{}\n{} single steps: {}", src, n, e)) };
       if a.0 != a2.0 || a.1 != a2.1 { return Outcome::violated("nondeterministic", format!("program\n{}\ntwo interpreters in one process disagree after step(0,{}): {} vs {}", src, n, show_snapshot(&a.1), show_snapshot(&a2.1))); }
+      // a profiled interpreter takes the same steps
+      if i < 2 { match run_steps_p(src, *n, false, true) { Ok(pr) => if pr.1 != a.1 { return Outcome::violated("profiled-steps-differ", format!("program\n{}\nstep(0,{}) gives {} but with profiling on {}", src, n, show_snapshot(&a.1), show_snapshot(&pr.1))); }, Err(e) => return Outcome::violated("step-panic", format!("program\n{}\nprofiled step(0,{}): {}", src, n, e)) } }
       if a.1 != b.1 { return Outcome::violated("n-steps-differ-from-single-steps", format!("program\n{}\nstep(0,{}) gives {} but {} single steps give {}", src, n, show_snapshot(&a.1), n, show_snapshot(&b.1))); }
       if !mutates && a.1 != a.0 { let d: Vec<String> = a.0.iter().filter(|(k, v)| a.1.get(*k) != Some(*v)).map(|(k, v)| format!("{}: {} -> {}", k, v.show(), a.1.get(k).map(|x| x.show()).unwrap_or_default())).collect(); return Outcome::violated("step-changed-assignment-free-program", format!("program\n{}\nafter step(0,{}): {}", src, n, d.join("; "))); }
       if i == 0 { snaps.push(a.0.clone()); }
